@@ -71,7 +71,10 @@ def swarm_config(profile, streams):
         fault_share = profile.fault_share
     else:
         fault_share = min(1.0, profile.fault_share * 1.6)
-    return {"length": length, "fault_share": fault_share}
+    cfg = {"length": length, "fault_share": fault_share}
+    if getattr(profile, "wfilter_share", 0) and streams.get("wfilter").random() < profile.wfilter_share:
+        cfg["wfilter"] = "error"
+    return cfg
 
 
 def run_session(prop, run_seed, profile, monitors, ops=None, known=None, own_tree=False,
@@ -90,6 +93,7 @@ def run_session(prop, run_seed, profile, monitors, ops=None, known=None, own_tre
     with seams.installed(streams, clock=clock) as env:
         U = Universe()
         interp = Interp(U, env)
+        env.wfilter = cfg.get("wfilter")
         gen = None
         if ops is None:
             gen = Gen(U, streams.get("gen"), profile)
@@ -121,7 +125,15 @@ def run_session(prop, run_seed, profile, monitors, ops=None, known=None, own_tre
                     continue
                 pre = U.snapshot()
                 try:
-                    outcome = interp.apply(op, args)
+                    if cfg.get("wfilter") == "error":
+                        # environment: the application runs with warnings turned into errors;
+                        # only while the library's operation runs, not while the harness looks
+                        import warnings as _w
+                        with _w.catch_warnings():
+                            _w.simplefilter("error")
+                            outcome = interp.apply(op, args)
+                    else:
+                        outcome = interp.apply(op, args)
                 except Skip as exc:
                     res.stats["skipped"] += 1
                     res.log.append(jdump({"step": step, "op": op, "skip": str(exc)}))
